@@ -288,7 +288,10 @@ impl Run {
                     let oracle = &oracle;
                     let make_strategy = &make_strategy;
                     let n = cases / shards + if i < cases % shards { 1 } else { 0 };
-                    sc.spawn(move || run_shard(make_strategy(), seed, n, oracle, known))
+                    std::thread::Builder::new()
+                        .stack_size(32 << 20)
+                        .spawn_scoped(sc, move || run_shard(make_strategy(), seed, n, oracle, known))
+                        .expect("spawn shard thread")
                 })
                 .collect();
             handles.into_iter().map(|h| h.join().expect("shard thread")).collect()
